@@ -210,6 +210,65 @@ def exhaustive_loop(ctx, rule, func, head, what):
                   construct='exhaustive: %s' % what)
 
 
+def tolerance_polarity(ctx, rule, func, allowed=None):
+    """Error discipline of the handlers of ``func``: a test of the caught
+    error's errno against errno.E* splits the handler into the tolerated
+    case (the benign race: already there / already gone) and everything else.
+    The tolerated outcome must not re-raise, every other outcome must - an
+    inverted test raises on the benign race and swallows real failures.
+    Returns the number of tests judged."""
+    graph = ctx.cfg(func)
+    nz = N.Normaliser()
+    count = 0
+    raises = [n for n in graph.nodes if n.kind == 'raise_stmt']
+    for test in [n for n in graph.nodes if n.kind == 'test']:
+        atom = nz.atom(test.ast)
+        key = atom.key
+        codes = []
+        if key[0] == 'cmp' and key[1] in ('==', '!=') and len(key[2]) == 2:
+            terms = [t for t, _c in key[2]]
+            codes = [t for t in terms if t.startswith('errno.E')]
+            if not (len(codes) == 1 and any(t.endswith('.errno')
+                                            for t in terms)):
+                continue
+            equal_kind = 'true' if key[1] == '==' else 'false'
+        elif key[0] == 'in' and key[1].endswith('.errno') and \
+                'errno.E' in key[2]:
+            equal_kind = 'true' if key[3] else 'false'
+            codes = [key[2]]
+        else:
+            continue
+        if allowed is not None and not any(a in codes[0] for a in allowed):
+            continue
+        count += 1
+        benign = [e for e in test.succ if e.kind == equal_kind]
+        other = [e for e in test.succ if e.kind not in (equal_kind, 'exc')]
+        # a handler without any raise tolerates everything by design (it
+        # logs and goes on): nothing to judge about polarity then
+        local = [r for r in raises if any(
+            r in cut_reach(graph, e.dst, follow_exc=False)
+            for e in test.succ)]
+        if not local:
+            ctx.ob(rule, func, test, True,
+                   'errno test without a re-raise on either side',
+                   construct='tolerance %s' % N.txt(test.ast)[:50])
+            continue
+        # tolerated: some way on to the normal exit (it may still raise under
+        # a further test - "exists, but owned by somebody else"); anything
+        # else: no way on without a raise
+        ok = all(e.dst not in raises and find_path(
+            e.dst, [graph.exit], cut_node=lambda n: n in raises,
+            follow_exc=False) is not None for e in benign) and all(
+                e.dst in raises or find_path(
+                    e.dst, [graph.exit], cut_node=lambda n: n in raises,
+                    follow_exc=False) is None for e in other)
+        ctx.ob(rule, func, test, ok,
+               'exactly %s is tolerated: that outcome does not re-raise, '
+               'every other error does' % codes[0],
+               construct='tolerance %s' % N.txt(test.ast)[:50])
+    return count
+
+
 def enclosing_for(cfg, node, var=None):
     """Innermost for-loop header whose body contains node (and, if given,
     whose target is the name ``var``)."""
